@@ -7,7 +7,7 @@ The geometry the cell-boundary handler and the occupancy share, as far as the sy
   (`ttb`), the velocities that occur (`velOK`), and the two facts the joint induction uses: the time is positive
   (`JF.C11.boundary_pos`, first clause) and strictly before it the time-sliced position is still in the cell of the start position
   (`JF.C11.stays_in_cell_pos`).
-* `axisGeo` — the instance for a cuboid box with one `JF.C11.Grid` per direction (at least two cells per direction), motion along
+* `axisGeoPos` — the instance for a cuboid box with one `JF.C11.Grid` per direction (at least two cells per direction), motion along
   one axis in the POSITIVE direction (coulomb_atoms: `InitialChainStartOfRunEventHandler` / the periodic-direction end-of-chain
   handler give velocities `speed · e_d`, `speed > 0`): `ttb` is literally `JF.Occ.timeToBoundary` in the direction of motion with
   the lower edge of the upper neighbour cell, as `CellBoundaryEventHandler.send_event_time` computes it.
@@ -120,7 +120,7 @@ structure AxisBox (env : Env ℚ) where
     env.cellOf p = env.cellOf q
 
 /-- motion along one axis in the positive direction -/
-def AxisVel (D : Nat) (v : List ℚ) : Prop :=
+def AxisVelPos (D : Nat) (v : List ℚ) : Prop :=
   v.length = D ∧ ∃ d, ∃ hd : d < v.length, 0 < v[d] ∧ ∀ d' (hd' : d' < v.length), d' ≠ d → v[d'] = 0
 
 /-- the direction of motion: the first non-zero velocity component -/
@@ -142,9 +142,9 @@ def axisTtb (grids : List Grid) (p v : List ℚ) : ℚ :=
   | _, _, _ => 0
 
 /-- **the geometry of an axis-aligned box, positive direction of motion** -/
-def axisGeo {env : Env ℚ} (B : AxisBox env) : Geo env where
+def axisGeoPos {env : Env ℚ} (B : AxisBox env) : Geo env where
   ttb := axisTtb B.grids
-  velOK := AxisVel env.L.length
+  velOK := AxisVelPos env.L.length
   posBox := by
     intro l hl
     rw [B.hL] at hl
